@@ -26,6 +26,10 @@ pub struct ParserOpts {
     /// the builders' storage type parameter: "u8" | "u16" | "u32" (None = u32)
     #[serde(default)]
     pub storaget: Option<String>,
+    /// "false": CTTokenMapBuilder gets no rename map, so token names such as "+" are rejected
+    /// (the token-map step of the build fails)
+    #[serde(default)]
+    pub token_map_rename: Option<String>,
 }
 
 #[derive(Serialize, Deserialize, Clone, Debug, PartialEq, Eq, PartialOrd, Ord, Default)]
@@ -379,7 +383,8 @@ fn run(spec: &BuildSpec) -> Result<(bool, Option<bool>), String> {
                 let _ = i;
                 crate::rng::fnv(k.as_bytes()) % 100000
             }))).collect();
-            CTTokenMapBuilder::<u32>::new("token_map", map).rename_map(Some(rename)).allow_dead_code(true).build().map_err(|e| e.to_string())?;
+            let rename = if spec.parser.token_map_rename.as_deref() == Some("false") { None } else { Some(rename) };
+            CTTokenMapBuilder::<u32>::new("token_map", map).rename_map(rename).allow_dead_code(true).build().map_err(|e| format!("token map: {e}"))?;
         }
     }
     Ok((regenerated, reported))
